@@ -268,6 +268,8 @@ class Node:
                 m.disconnect_cause_avp.data = DISCONNECT_CAUSE_BUSY
         elif kind == "DPA":
             m = DPA(origin_host=host, origin_realm=realm)
+            if mode == 2:
+                m.pop("result_code_avp")
         elif kind in ("REQ", "MIS"):
             m = DiameterRequest(command_code=316, application_id=16777251)
             m.extend([SessionIdAVP(b"peer;1;%d" % i), OriginHostAVP(host), OriginRealmAVP(realm),
@@ -282,6 +284,11 @@ class Node:
             raise AssertionError(kind)
         if mode == 1 and kind in ("CER", "CEA", "DWR", "DWA", "DPR"):
             m.header.flags = m.header.get_flags() | 0x40          # P bit: the flag byte is not exactly 0x80 / 0x00
+        if mode == 1 and kind == "DPA":
+            # a protocol-error answer: E bit and DIAMETER_TOO_BUSY
+            from bromelia.avps import ResultCodeAVP as _RC
+            m.result_code_avp.data = (3004).to_bytes(4, "big")
+            m.header.flags = m.header.get_flags() | 0x20
         m.header.hop_by_hop = hbh
         m.header.end_to_end = e2e
         m.refresh()
